@@ -14,7 +14,7 @@ pub const DEF: PropDef = PropDef {
     run,
     replay,
     level: "exploration",
-    rule: "model-based: a session sends K messages per direction (K=4 quick, 5 thorough), then a delivery schedule is executed; exhaustive part = ALL schedules up to length 5 (6 thorough) over the alphabet {Deliver(0..K-1), garbage, expected message into an undersized buffer, oversize message} in one direction (contains every permutation with drops and duplicates); random part = longer schedules over both directions that also use set_receiving_nonce(v) with v in sent indices, beyond, 2^64-1. Sessions rotate over all ciphers, hashes, both backends and interactive/one-way patterns. Model: one integer rn per direction; Deliver(j) with an adequate buffer is accepted iff j == rn (payload equals message j, rn += 1), everything else is rejected; after EVERY step receiving_nonce() == rn and sending_nonce() == number of writes. Non-trivial = the schedule contains a rejected delivery that is followed later by an accepted one; distinct by (config, schedule)",
+    rule: "model-based: a session sends K messages per direction (K=4 quick, 5 thorough), then a delivery schedule is executed; exhaustive part = ALL schedules up to length 5 (6 thorough) over the alphabet {Deliver(0..K-1), garbage, expected message into an undersized buffer, oversize message, set_receiving_nonce(message number 1)} in one direction (contains every permutation with drops and duplicates); random part = longer schedules over both directions that also use set_receiving_nonce(v) with v in sent indices, beyond, 2^64-1. Long runs: 600 (thorough 1500) messages written and delivered in order from several counter bases, each accepted exactly once, with duplicates / garbage / undersized buffers / truncated copies rejected in between. Sessions rotate over all ciphers, hashes, both backends and interactive/one-way patterns. Model: one integer rn per direction; Deliver(j) with an adequate buffer is accepted iff j == rn (payload equals message j, rn += 1), everything else is rejected; after EVERY step receiving_nonce() == rn and sending_nonce() == number of writes. Non-trivial = the schedule contains a rejected delivery that is followed later by an accepted one; distinct by (config, schedule)",
     technique: "model-based testing of delivery schedules: bounded-exhaustive enumeration + proptest random schedules with shrinking",
     assumptions: &[],
     panic_is_violation: false,
@@ -189,12 +189,102 @@ fn oracle(c: &Case, acc: &mut Acc) -> CaseResult {
     Ok(())
 }
 
+
+/// Long in-order runs: `n` messages written and delivered one after the other (so the COUNT of
+/// accepted messages crosses 256 and 512 wherever the counters started), with a rejected delivery
+/// (duplicate of the previous message, garbage, undersized buffer, truncated copy) before some of
+/// them; every genuine message must be accepted exactly once, in order.
+#[derive(Clone, Debug, Serialize, Deserialize)]
+pub struct LongCase {
+    pub pattern: String,
+    pub suite_idx: usize,
+    pub backend: Backend,
+    pub n: usize,
+    pub base: u64,
+    pub seed: u64,
+}
+
+fn long_oracle(c: &LongCase, acc: &mut Acc) -> CaseResult {
+    let suites = all_suites();
+    let suite = suites[c.suite_idx % suites.len()];
+    let mut spec = SessionSpec::simple(HsName { pattern: c.pattern.clone(), psks: vec![] }, suite, c.seed);
+    if ring_covers(suite) {
+        spec.backend_i = c.backend;
+        spec.backend_r = c.backend;
+    }
+    let name = format!("{} [{:?}] long run of {} from counter {}", spec.name_string(), c.backend, c.n, c.base);
+    let oneway = spec.pattern().is_oneway();
+    let pair = drive_to(&spec, spec.n_msgs())?;
+    let mut ti = pair.i.into_transport_mode().map_err(|x| Fail::setup(e(&x)))?;
+    let mut tr = pair.r.into_transport_mode().map_err(|x| Fail::setup(e(&x)))?;
+    if c.base != 0 {
+        ti.verif_set_sending_nonce(c.base);
+        tr.verif_set_sending_nonce(c.base);
+        ti.set_receiving_nonce(c.base);
+        tr.set_receiving_nonce(c.base);
+    }
+    let mut prev: [Option<Vec<u8>>; 2] = [None, None];
+    let mut rejects = 0usize;
+    for j in 0..c.n {
+        for d in 0..2usize {
+            if d == 1 && (oneway || j % 3 != 0) {
+                continue;
+            }
+            let plen = [5usize, 0, 33, 1, 700][(j + d) % 5];
+            let payload = expand(c.seed, (d * 100_000 + j) as u64, plen);
+            let (w, r) = if d == 0 { (&mut ti, &mut tr) } else { (&mut tr, &mut ti) };
+            let m = t_write(w, &payload, plen + 16).map_err(|x| Fail::setup(format!("{name}: write {j}: {}", e(&x))))?;
+            let want_rn = r.receiving_nonce();
+            // a rejected delivery before some of the genuine ones
+            let mut buf = vec![0u8; plen + 16];
+            let rej: Option<Result<usize, snow::Error>> = match mix(c.seed, j as u64) % 11 {
+                0 => prev[d].as_ref().map(|p| r.read_message(p, &mut buf)),
+                1 => Some(r.read_message(&expand(c.seed, 900 + j as u64, m.len()), &mut buf)),
+                2 if plen > 0 => Some(r.read_message(&m, &mut buf[..plen - 1])),
+                3 => Some(r.read_message(&m[..m.len() - 1], &mut buf)),
+                _ => None,
+            };
+            // now and then a burst of consecutive rejected deliveries with no accepted one between
+            if j % 200 == 150 {
+                for b in 0..[70usize, 130, 260][(j / 200) % 3] {
+                    let g = if b % 3 == 0 { prev[d].clone().unwrap_or_default() } else { expand(c.seed, 7000 + b as u64, 16 + b % 40) };
+                    let res = r.read_message(&g, &mut buf);
+                    ensure!(res.is_err(), "{name}: burst delivery {b} before message {j} accepted");
+                }
+                ensure!(r.receiving_nonce() == want_rn, "{name}: a burst of rejected deliveries before message {j} moved the receiving nonce {want_rn} -> {}", r.receiving_nonce());
+                rejects += 1;
+            }
+            if let Some(res) = rej {
+                ensure!(res.is_err(), "{name}: a delivery that is not the next message was accepted before message {j} (direction {d})");
+                ensure!(r.receiving_nonce() == want_rn, "{name}: a rejected delivery before message {j} moved the receiving nonce {want_rn} -> {}", r.receiving_nonce());
+                rejects += 1;
+            }
+            let n = r.read_message(&m, &mut buf).map_err(|x| Fail::new(format!("{name}: message number {j} of direction {d} (the next not-yet-accepted one) was rejected: {x:?}")))?;
+            ensure!(buf[..n] == payload[..], "{name}: message {j}: payload differs");
+            ensure!(r.receiving_nonce() == want_rn + 1, "{name}: receiving nonce after message {j}: {} (expected {})", r.receiving_nonce(), want_rn + 1);
+            // the same message again: exactly once
+            let again = r.read_message(&m, &mut buf);
+            ensure!(again.is_err(), "{name}: message {j} accepted a second time");
+            ensure!(r.receiving_nonce() == want_rn + 1, "{name}: duplicate of message {j} moved the receiving nonce");
+            prev[d] = Some(m);
+        }
+    }
+    acc.label(format!("long_run:{}", c.n));
+    if rejects > 0 {
+        acc.nontrivial(&(name, c.seed));
+    }
+    Ok(())
+}
+
 fn alphabet(k: u8) -> Vec<Op> {
     let mut a: Vec<Op> = (0..k).map(|j| Op::Deliver(false, j)).collect();
     a.push(Op::Garbage(false, 40));
     a.push(Op::GarbageLen(false, 7));
     a.push(Op::SmallBuf(false));
     a.push(Op::Oversize(false));
+    // an explicit receiving-nonce change to message number 1: a step back or ahead, depending on
+    // where the receiver is
+    a.push(Op::SetNonce(false, 1));
     a
 }
 
@@ -242,6 +332,24 @@ pub fn run(ctx: &Ctx) {
             oracle,
         );
     }
+    {
+        let mut long = Vec::new();
+        let bases = [0u64, 1, 7, 200, 65536 - 300, (1 << 32) - 280, u64::MAX - 700];
+        for (i, base) in bases.iter().enumerate() {
+            for rep in 0..ctx.tier.pick(2usize, 12) {
+                let k = i * 12 + rep;
+                long.push(LongCase {
+                    pattern: pats[k % pats.len()].to_string(),
+                    suite_idx: (k * 7 + 3) % 24,
+                    backend: if k % 2 == 0 { Backend::RingFirst } else { Backend::Default },
+                    n: ctx.tier.pick(600, 1500),
+                    base: *base,
+                    seed: mix(seed, 4000 + k as u64),
+                });
+            }
+        }
+        ctx.run_list("long_in_order_runs", &long, false, long_oracle);
+    }
     ctx.run_prop(
         "random_schedules",
         ctx.tier.pick(20_000, 500_000),
@@ -270,5 +378,8 @@ pub fn run(ctx: &Ctx) {
 }
 
 pub fn replay(ctx: &Ctx, sub: &str, case: &serde_json::Value, origin: &str) -> bool {
+    if sub == "long_in_order_runs" {
+        return ctx.replay_case::<LongCase, _>(sub, case, long_oracle, origin);
+    }
     ctx.replay_case::<Case, _>(sub, case, oracle, origin)
 }
